@@ -7,6 +7,8 @@ import Uniflow.Props.C02TieFn1
 import Uniflow.Props.C04TieFn1
 import Uniflow.Props.C06TieFn2
 import Uniflow.Props.C01TieFn1
+import Uniflow.Props.C01TieLayer
+import Uniflow.Props.C05TieLayer
 
 theorem C19.dep_C02_packet_tracer_as_modelled_1 : type_of% C02.src_packet_tracer_as_modelled_1 := C02.src_packet_tracer_as_modelled_1
 theorem C19.dep_C02_packet_tracer_as_modelled_2 : type_of% C02.src_packet_tracer_as_modelled_2 := C02.src_packet_tracer_as_modelled_2
@@ -15,3 +17,7 @@ theorem C19.dep_C04_process_process_as_modelled_1 : type_of% C04.src_process_pro
 theorem C19.dep_C04_process_process_as_modelled_2 : type_of% C04.src_process_process_as_modelled_2 := C04.src_process_process_as_modelled_2
 theorem C19.dep_C06_symbol_symbol_as_modelled : type_of% C06.src_symbol_symbol_as_modelled := C06.src_symbol_symbol_as_modelled
 theorem C19.dep_C01_packet_packet_as_modelled : type_of% C01.src_packet_packet_as_modelled := C01.src_packet_packet_as_modelled
+theorem C19.dep_C01_packet_hook_as_modelled : type_of% C01.src_packet_hook_as_modelled := C01.src_packet_hook_as_modelled
+theorem C19.dep_C05_port_openhook_as_modelled : type_of% C05.src_port_openhook_as_modelled := C05.src_port_openhook_as_modelled
+theorem C19.dep_C05_port_closehook_as_modelled : type_of% C05.src_port_closehook_as_modelled := C05.src_port_closehook_as_modelled
+theorem C19.dep_C05_port_listener_as_modelled : type_of% C05.src_port_listener_as_modelled := C05.src_port_listener_as_modelled
